@@ -4,11 +4,12 @@
    Finalize fails whenever any evaluated element, the proof (c or s), the public key, the info or a blinded element differs.
    Proof systems: honest proofs verify; any altered component or context, and every degenerate assembly, is refused.    *)
 EXTENDS Integers, Sequences, FiniteSets, TLC
-OprfSites == {"none", "eval-element", "eval-swap", "proof-c", "proof-s", "other-key", "other-info", "blinded-element", "eval-identity", "proof-zero"}
-ProofSites == {"none", "proof-c", "proof-s", "proof-v", "statement-a", "statement-b", "statement-c", "statement-d", "statement-length", "statement-nonunit", "context", "userid",
+OprfSites == {"none", "eval-element", "eval-swap", "proof-c", "proof-s", "other-key", "other-info", "blinded-element", "eval-identity", "proof-zero", "proof-nil", "zero-blind"}
+ProofSites == {"none", "proof-c", "proof-s", "proof-v", "proof-trailing", "statement-a", "statement-b", "statement-c", "statement-d", "statement-length", "statement-nonunit", "statement-negated", "statement-oversize", "context", "userid",
                "zero-challenge", "zero-response", "identity-elements", "false-statement", "prover-parameter", "swapped-proof"}
 ExpectedOprf(mode, site) ==
   IF site = "none" THEN "ok"
+  ELSE IF site = "zero-blind" THEN "error"            \* every mode: a zero blind fails or still gives the direct evaluation (finalize_ok counts wrong outputs)
   ELSE IF mode = "base" THEN "any"                    \* no verifiability in base mode: nothing is promised about altered evaluations
   ELSE IF site = "other-info" /\ mode # "poprf" THEN "n/a" ELSE "error"
 ExpectedProof(site) == IF site = "none" THEN "accept" ELSE "reject"
